@@ -309,18 +309,17 @@ Qed.
    C. each validator against the value Annex B requires
    ================================================================================================ *)
 
-(* [v] answers to the OID of requirement [r] and accepts exactly the values [r] allows -- except
-   that it also accepts an issuer alternative name without names *)
+(* [v] answers to the OID of requirement [r] and accepts exactly the values [r] allows *)
 Definition v_agrees (key : bytes) (v : validator) (r : oid * (decoded -> Prop)) : Prop :=
   v_oid v = fst r /\
   (forall d, snd r d -> v_validate key v d = []) /\
-  (forall d, d <> DIssuerAltName [] -> v_validate key v d = [] -> snd r d).
+  (forall d, v_validate key v d = [] -> snd r d).
 
 Lemma agree_ski c : v_agrees (c_key c) GSki (oid_subject_key_identifier, ski_matches_key ski_of_key c).
 Proof.
   split; [rewrite gen_v_oid; reflexivity|]. cbn [snd]. unfold ski_matches_key. split.
   - intros d ->. cbn. rewrite bytes_eqb_refl. reflexivity.
-  - intros d _ H. destruct d; cbn in H; try discriminate.
+  - intros d H. destruct d; cbn in H; try discriminate.
     destruct (bytes_eqb (ski_of_key (c_key c)) id) eqn:E; [|discriminate]. apply bytes_eqb_eq in E. congruence.
 Qed.
 
@@ -328,7 +327,7 @@ Lemma agree_ku key bits : v_agrees key (GKu bits) (oid_key_usage, ku_only bits).
 Proof.
   split; [rewrite gen_v_oid; reflexivity|]. cbn [snd]. unfold ku_only. split.
   - intros d ->. cbn. rewrite N.eqb_refl. reflexivity.
-  - intros d _ H. destruct d; cbn in H; try discriminate.
+  - intros d H. destruct d; cbn in H; try discriminate.
     destruct (N.eqb_spec bits0 bits); [congruence | discriminate].
 Qed.
 
@@ -339,7 +338,7 @@ Proof.
     assert (F : forallb (fun x => oid_eqb x o) oids = true)
       by (apply forallb_forall; intros x Hx; apply oid_eqb_eq; apply Hall; exact Hx).
     rewrite F. cbn. destruct oids; [contradiction | reflexivity].
-  - intros d _ H. destruct d as [| oids | | | | | | |]; cbn in H; try discriminate.
+  - intros d H. destruct d as [| oids | | | | | | |]; cbn in H; try discriminate.
     destruct (forallb (fun x => oid_eqb x o) oids) eqn:F; cbn in H; [|discriminate].
     destruct oids as [|x r]; cbn in H; [discriminate|].
     exists (x :: r). split; [reflexivity|]. split; [discriminate|].
@@ -350,7 +349,7 @@ Lemma agree_bc key : v_agrees key GBc (oid_basic_constraints, bc_ca_pathlen0).
 Proof.
   split; [rewrite gen_v_oid; reflexivity|]. cbn [snd]. unfold bc_ca_pathlen0. split.
   - intros d ->. reflexivity.
-  - intros d _ H. destruct d as [| | ca pl | | | | | |]; cbn in H; try discriminate.
+  - intros d H. destruct d as [| | ca pl | | | | | |]; cbn in H; try discriminate.
     destruct pl as [n|]; [|discriminate]. destruct (N.eqb_spec n 0); cbn in H; [|discriminate].
     destruct ca; cbn in H; [|discriminate]. subst. reflexivity.
 Qed.
@@ -374,7 +373,7 @@ Proof.
   split; [rewrite gen_v_oid; reflexivity|]. cbn [snd]. unfold crl_uri. split.
   - intros d [pts [-> [Hne Hall]]]. cbn. destruct pts as [|p r]; [contradiction|]. cbn [is_nil].
     apply flat_map_nil_iff. intros q Hq. apply crl_point_errors_nil. apply Hall. exact Hq.
-  - intros d _ H. destruct d as [| | | pts | | | | |]; cbn in H; try discriminate.
+  - intros d H. destruct d as [| | | pts | | | | |]; cbn in H; try discriminate.
     destruct pts as [|p r]; cbn [is_nil] in H; [discriminate|].
     exists (p :: r). split; [reflexivity|]. split; [discriminate|].
     intros q Hq. apply crl_point_errors_nil. rewrite flat_map_nil_iff in H. apply H. exact Hq.
@@ -383,14 +382,15 @@ Qed.
 Lemma agree_ian key : v_agrees key GIan (oid_issuer_alt_name, ian_contact).
 Proof.
   split; [rewrite gen_v_oid; reflexivity|]. cbn [snd]. unfold ian_contact. split.
-  - intros d [names [-> [Hne Hall]]]. cbn.
-    assert (F : forallb gn_is_rfc822_or_uri names = true)
-      by (apply forallb_forall; intros g Hg; destruct (Hall g Hg) as [-> | ->]; reflexivity).
+  - intros d [names [-> [Hne Hall]]]. cbn. destruct names as [|g r]; [contradiction|]. cbn [is_nil].
+    assert (F : forallb gn_is_rfc822_or_uri (g :: r) = true)
+      by (apply forallb_forall; intros h Hh; destruct (Hall h Hh) as [-> | ->]; reflexivity).
     rewrite F. reflexivity.
-  - intros d Hd H. destruct d as [| | | | names | | | |]; cbn in H; try discriminate.
-    destruct (forallb gn_is_rfc822_or_uri names) eqn:F; cbn in H; [|discriminate].
-    exists names. split; [reflexivity|]. split; [intros ->; apply Hd; reflexivity|].
-    intros g Hg. rewrite forallb_forall in F. specialize (F g Hg). destruct g; auto; discriminate.
+  - intros d H. destruct d as [| | | | names | | | |]; cbn in H; try discriminate.
+    destruct names as [|g r]; cbn [is_nil] in H; [discriminate|].
+    destruct (forallb gn_is_rfc822_or_uri (g :: r)) eqn:F; cbn in H; [|discriminate].
+    exists (g :: r). split; [reflexivity|]. split; [discriminate|].
+    intros h Hh. rewrite forallb_forall in F. specialize (F h Hh). destruct h; auto; discriminate.
 Qed.
 
 Definition tables_agree (key : bytes) (vs : list validator) (reqs : list (oid * (decoded -> Prop))) : Prop :=
@@ -465,11 +465,11 @@ Qed.
 Lemma lax_profile_sound vs reqs c :
   tables_agree (c_key c) vs reqs -> rfc5280_wf c -> lax_profile vs c -> profile_of reqs c.
 Proof.
-  intros [T1 T2] [Wnd Wian] [L1 [L2 [L3 L4]]]. rewrite gen_disallowed in L1. split; [|split; [exact L1|]].
+  intros [T1 T2] Wnd [L1 [L2 [L3 L4]]]. rewrite gen_disallowed in L1. split; [|split; [exact L1|]].
   - intros o P Hr. destruct (T2 (o, P) Hr) as [v [Hv [A1 [_ A3]]]]. cbn [fst snd] in *.
     destruct (L4 v Hv) as [e [He Eo]]. exists e. split.
     + unfold exts_with. rewrite <- A1, <- Eo. apply (filter_unique e_oid); assumption.
-    + apply A3; [apply Wian; exact He | apply L2; [exact He | exact Hv | congruence]].
+    + apply A3. apply L2; [exact He | exact Hv | congruence].
   - intros e He Hc. destruct (L3 e He Hc) as [v [Hv Ev]]. destruct (T1 v Hv) as [r [Hr [A1 _]]].
     apply in_map_iff. exists r. split; [congruence | exact Hr].
 Qed.
@@ -509,11 +509,11 @@ Theorem role_deviation r c :
 Proof.
   intros D H. apply (role_errors_nil_iff _ _ (role_nodup r)) in H. destruct H as [L1 [L2 [L3 L4]]].
   destruct (role_tables r c) as [T1 T2]. rewrite gen_disallowed in L1.
-  destruct D as [[o [Ho Habs]] | [[o [P [e [Hr [He [Eo [HnP Hne]]]]]]] | [[e [He Hp]] | [e [He [Hc Hn]]]]]].
+  destruct D as [[o [Ho Habs]] | [[o [P [e [Hr [He [Eo HnP]]]]]] | [[e [He Hp]] | [e [He [Hc Hn]]]]]].
   - apply in_map_iff in Ho as [rq [Eo Hr]]. destruct (T2 rq Hr) as [v [Hv [A1 _]]].
     destruct (L4 v Hv) as [e [He Ee]]. apply (Habs e He). congruence.
   - destruct (T2 (o, P) Hr) as [v [Hv [A1 [_ A3]]]]. cbn [fst snd] in *.
-    apply HnP. apply A3; [exact Hne | apply L2; [exact He | exact Hv | congruence]].
+    apply HnP. apply A3. apply L2; [exact He | exact Hv | congruence].
   - exact (L1 e He Hp).
   - destruct (L3 e He Hc) as [v [Hv Ev]]. destruct (T1 v Hv) as [rq [Hr [A1 _]]].
     apply Hn. apply in_map_iff. exists rq. split; [congruence | exact Hr].
@@ -903,6 +903,8 @@ Definition w_iaca_head : list ext :=
 Definition w_iaca : cert := w_iaca_with (w_iaca_head ++ [w_bc; w_ian; w_crl]).
 (* an earlier certificate for the same IACA key and name, issued without basic constraints *)
 Definition w_iaca_old : cert := w_iaca_with (w_iaca_head ++ [w_ian; w_crl]).
+Definition w_iaca_empty_ian : cert :=
+  w_iaca_with (w_iaca_head ++ [w_bc; w_x oid_issuer_alt_name false (DIssuerAltName []); w_crl]).
 
 Definition w_ds_with (exts : list ext) : cert :=
   {| c_not_before := 100; c_not_after := 900; c_issuer := w_name_ca; c_subject := w_name_ds;
@@ -948,8 +950,11 @@ Definition iff_statement : Prop :=
     clock_ok now ->
     (validate ski_of_key verifies rs now x reg = [] <-> conformant ski_of_key verifies rs now (x_first x) reg).
 
-(* a repeated extension (RFC 5280 4.2 forbids it) is accepted *)
-Theorem refuted_duplicate_extension :
+(* the restriction to certificates that repeat no extension is needed for the equivalence as
+   stated: [conformant] asks for exactly one instance of each required extension, the
+   implementation is content when every instance validates.  (Not a defect: the property text
+   neither requires nor forbids accepting such a certificate.) *)
+Theorem needs_unique_extensions :
   exists ski_of_key verifies rs now x reg,
     clock_ok now /\ unambiguous_anchor verifies rs now (x_first x) reg /\
     validate ski_of_key verifies rs now x reg = [] /\
@@ -961,19 +966,14 @@ Proof.
   intro H. apply <- conformant_b_iff in H. vm_compute in H. discriminate.
 Qed.
 
-(* an issuer alternative name that names nobody is accepted, in a certificate without repeated extensions *)
-Theorem refuted_empty_issuer_alt_name :
-  exists ski_of_key verifies rs now x reg,
-    clock_ok now /\ unambiguous_anchor verifies rs now (x_first x) reg /\ NoDup (map e_oid (c_exts (x_first x))) /\
-    validate ski_of_key verifies rs now x reg = [] /\
-    ~ conformant ski_of_key verifies rs now (x_first x) reg.
-Proof.
-  exists w_ski, w_verifies, Mdl, w_now, (w_chain w_ds_empty_ian), [w_anchor w_iaca].
-  split; [exact w_clock|]. split; [apply -> unambiguous_anchor_b_iff; vm_compute; reflexivity|].
-  split; [apply -> nodup_b_iff; vm_compute; reflexivity|].
-  split; [vm_compute; reflexivity|].
-  intro H. apply <- conformant_b_iff in H. vm_compute in H. discriminate.
-Qed.
+(* an issuer alternative name that names nobody is an error (since the fix e4f7676), for the
+   leaf and for the IACA *)
+Lemma w_empty_issuer_alt_name_rejected :
+  validate w_ski w_verifies Mdl w_now (w_chain w_ds_empty_ian) [w_anchor w_iaca] = [(CtxDs, KExt XIan VIanEmpty)] /\
+  validate w_ski w_verifies MdlReaderOneStep w_now (w_chain w_ds_empty_ian) [] =
+    [(CtxReader, KExt XEku VValue); (CtxReader, KExt XIan VIanEmpty); (CtxReaderCa, KNoTrustAnchor)] /\
+  validate w_ski w_verifies Mdl w_now (w_chain w_ds) [w_anchor w_iaca_empty_ian] = [(CtxIaca, KExt XIan VIanEmpty)].
+Proof. repeat split; vm_compute; reflexivity. Qed.
 
 (* two registry entries anchor the leaf, the second one is a conformant IACA: rejected, because
    only the first candidate is examined *)
@@ -992,8 +992,8 @@ Qed.
 
 Theorem iff_refuted : ~ iff_statement.
 Proof.
-  intro H. destruct refuted_duplicate_extension as [s [v [rs [now [x [reg [Hc [_ [Hv Hn]]]]]]]]].
-  apply Hn. apply (H s v rs now x reg Hc). exact Hv.
+  intro H. destruct refuted_ambiguous_anchor as [s [v [rs [now [x [reg [Hc [_ [Hconf [Hne _]]]]]]]]]].
+  apply Hne. apply (H s v rs now x reg Hc). exact Hconf.
 Qed.
 
 (* only the first certificate of the x5chain is looked at *)
